@@ -226,7 +226,7 @@ def _run_group(modname, gname, tier):
         from . import evaluator as _ev
         os.makedirs(covdir, exist_ok=True)
         with open(os.path.join(covdir, f"{modname.split('.')[-1]}-{re.sub('[^A-Za-z0-9]+', '_', gname)}-{os.getpid()}.json"), "w") as f_:
-            json.dump(sorted(_ev.COVERAGE or ()), f_)
+            json.dump(sorted(_ev.COVERAGE or (), key=str), f_)
     return dict(group=gname, items=items, wall=time.time() - t0, solver_s=sym.STATS.solver_s,
                 queries=sym.STATS.queries, functions=dict(extract.FUNCTIONS_SEEN))
 
